@@ -62,11 +62,39 @@ CHECKS = {
             "with symbolic flag; z3 / AST scan"),
 }
 
+CHECKS.update({
+    "C07": ("contracts on the LINEAR, SCALE-LINEAR, TAB-INTP, RAT-FUNC, TEXTTABLE and IDENTICAL compu methods with "
+            "coefficients, limits and values symbolic (reals/integers): conversion = the exact ODX formula (nearest "
+            "integer for integer types), validity = admissible type and inside the limits with OPEN/CLOSED/INFINITE "
+            "honoured, image of a valid internal value valid and converting back where injective, valid physical "
+            "values convert without error, monotone continuous piecewise-linear methods can always encode. Type pairs, "
+            "interval types and presence of optional parts enumerated (E); number of scales / table points / "
+            "polynomial degree bounded (B). SCALE-RAT-FUNC and COMPU-CODE are not under contract.",
+            "pre/postconditions of the compu-method functions against exact real-arithmetic specifications "
+            "(spec/compu.py), float treated as real (A-float); z3 nonlinear real arithmetic"),
+    "C10": ("contracts on the reference machinery: OdxLinkDatabase.resolve/resolve_lenient (object of the innermost "
+            "fragment carrying the id, error in strict mode when dangling or of the wrong type, database unchanged), "
+            "update (whole-map postcondition, overwrite flag), OdxLinkRef.from_et (DOCREF vs referring fragments), "
+            "OdxLinkId equality/hash, resolve_snref (unique name or error), retarget_snrefs (every layer reachable "
+            "through parent references re-resolved against the target). Which reference each of the ~150 "
+            "_resolve_odxlinks methods passes is plumbing that is not decided here.",
+            "pre/postconditions with whole-map frame clauses on the odxlink functions; presence/type of entries "
+            "symbolic, fragment shapes enumerated; z3"),
+    "C16": ("representation invariant of NamedItemList (one name per position, names are the unique identifier-safe "
+            "short names, no shadowing, lookups agree) proved to be preserved by every public operation from an "
+            "arbitrary invariant-satisfying pre-state (built directly, not through the code), with the list effect of "
+            "the `list` operation; invariant + per-operation proof covers every history. Pre-state size and name "
+            "alphabet bounded (B).",
+            "data-structure invariant + per-operation pre/postconditions (abstract view = plain list + name map); "
+            "pre-states enumerated through the solver; z3"),
+})
+
 NOT_APPLICABLE = {
     "C11": "PDX write->load round trip is a property of Jinja2 template text plus the ElementTree infoset; neither is "
            "Python code on which a contract can be stated or from which a VC can be generated (DESIGN.md 5 C11)",
 }
-PENDING = ["C06", "C07", "C09", "C10", "C14", "C15", "C16", "C18"]
+BOUNDED_ONLY = {"C16"}
+PENDING = ["C06", "C09", "C14", "C15", "C18"]
 
 
 def main():
@@ -80,7 +108,9 @@ def main():
             "replay_cmd_template": "./vcheck --replay {path}",
             "engine": "pyvc",
             "technique": "contract-based deductive verification: " + tech,
-            "level_claimed": {"category": "proof", "design_ref": f"DESIGN.md section 5 ({pid})", "text": text},
+            "level_claimed": {"category": "other" if pid in BOUNDED_ONLY else "proof",
+                              "design_ref": f"DESIGN.md section 5 ({pid})",
+                              "text": ("BOUNDED STAND-IN (nothing counted as proved): " if pid in BOUNDED_ONLY else "") + text},
             "level_note": TRUST,
         })
     na = [{"property_id": k, "reason": v} for k, v in sorted(NOT_APPLICABLE.items())]
